@@ -6,11 +6,15 @@
 (* of the next send directly, and is woken by the close of the context it waits on.        *)
 (* Drain = TRUE models the repaired loop (on the flush request the flusher empties the     *)
 (* queue before signalling completion); Drain = FALSE is the loop as originally written.   *)
+(* SignalFirst = TRUE (with Drain) is the class "completion is signalled when the flush    *)
+(* request is seen, the queue is emptied afterwards": every entry still reaches the writer, *)
+(* once and in order, but FlushLogger can return before -- FlushComplete must reject it.   *)
 EXTENDS Integers, Sequences, FiniteSets, TLC
 CONSTANTS G,        \* logging goroutines
           NE,       \* entries per goroutine
           K,        \* queue capacity
-          Drain
+          Drain,
+          SignalFirst   \* FALSE: the code under verification; TRUE: completion signalled before the final drain (guard model)
 Entries == G \X (1..NE)
 VARIABLES q,          \* logQueue buffer
           next,       \* next[g]: index of the next entry goroutine g will log
@@ -66,7 +70,7 @@ FWrite ==
 FExit ==                                     \* after the done case: (repaired) drain, then asyncCancel
   /\ fpc = "exiting"
   /\ IF Drain /\ q # <<>>
-       THEN fpc' = "gotx" /\ fv' = Head(q) /\ q' = Tail(q) /\ UNCHANGED asyncDone
+       THEN fpc' = "gotx" /\ fv' = Head(q) /\ q' = Tail(q) /\ asyncDone' = (asyncDone \/ SignalFirst)
        ELSE fpc' = "done" /\ asyncDone' = TRUE /\ UNCHANGED <<fv, q>>
   /\ UNCHANGED <<next, lpc, written, syncDone, rpc, snapshot>>
 \* ---- FlushLogger: FlushCall (the requester enters; what had been logged by then is the obligation),
